@@ -701,14 +701,15 @@ void qlist_clear(qlist_t *list) {
  *  -ENOMEM : Memory allocation failure.
  */
 void *qlist_toarray(qlist_t *list, size_t *size) {
+    qlist_lock(list);
+
     if (list->num <= 0) {
         if (size != NULL)
             *size = 0;
+        qlist_unlock(list);
         errno = ENOENT;
         return NULL;
     }
-
-    qlist_lock(list);
 
     void *chunk = malloc(list->datasum);
     if (chunk == NULL) {
